@@ -2651,19 +2651,29 @@ where
                         );
                     }
                 }
-                Err(err) => return Err(err),
+                Err(err) => {
+                    *tds = tds_snapshot;
+                    return Err(err);
+                }
             }
 
             // Final attempt with alternate queue order.
-            *tds = tds_snapshot;
-            let stats3 = if D == 2 {
+            *tds = tds_snapshot.clone();
+            let attempt3_result = if D == 2 {
                 repair_delaunay_with_flips_k2_attempt(tds, kernel, retry_seed_cells, &attempt3)
             } else {
                 repair_delaunay_with_flips_k2_k3_attempt(tds, kernel, retry_seed_cells, &attempt3)
-            }?;
-
-            verify_repair_postcondition(tds, kernel, retry_seed_cells)?;
-            Ok(stats3)
+            };
+            // A failed repair must leave the triangulation exactly as it was before the call.
+            if attempt3_result.is_err() {
+                *tds = tds_snapshot;
+                return attempt3_result;
+            }
+            if let Err(err) = verify_repair_postcondition(tds, kernel, retry_seed_cells) {
+                *tds = tds_snapshot;
+                return Err(err);
+            }
+            attempt3_result
         }
         Err(DelaunayRepairError::NonConvergent { .. }) => {
             if repair_trace_enabled() {
@@ -2698,21 +2708,34 @@ where
                         );
                     }
                 }
-                Err(err) => return Err(err),
+                Err(err) => {
+                    *tds = tds_snapshot;
+                    return Err(err);
+                }
             }
 
             // Final attempt with alternate queue order.
-            *tds = tds_snapshot;
-            let stats3 = if D == 2 {
+            *tds = tds_snapshot.clone();
+            let attempt3_result = if D == 2 {
                 repair_delaunay_with_flips_k2_attempt(tds, kernel, retry_seed_cells, &attempt3)
             } else {
                 repair_delaunay_with_flips_k2_k3_attempt(tds, kernel, retry_seed_cells, &attempt3)
-            }?;
-
-            verify_repair_postcondition(tds, kernel, retry_seed_cells)?;
-            Ok(stats3)
+            };
+            // A failed repair must leave the triangulation exactly as it was before the call.
+            if attempt3_result.is_err() {
+                *tds = tds_snapshot;
+                return attempt3_result;
+            }
+            if let Err(err) = verify_repair_postcondition(tds, kernel, retry_seed_cells) {
+                *tds = tds_snapshot;
+                return Err(err);
+            }
+            attempt3_result
         }
-        Err(err) => Err(err),
+        Err(err) => {
+            *tds = tds_snapshot;
+            Err(err)
+        }
     }
 }
 
